@@ -334,6 +334,11 @@ func (gb *gcpBalancer) newSubConn() {
 			return
 		}
 	}
+	// Re-check the pool size under the lock: concurrent pickers (current and
+	// superseded) may all have seen the pool below its max size.
+	if maxSize := gb.cfg.GetChannelPool().GetMaxSize(); maxSize != 0 && len(gb.scRefs) >= int(maxSize) {
+		return
+	}
 	gb.addSubConn()
 }
 
